@@ -51,6 +51,8 @@ def gen(W):
     sc["host"] = W.choice(["app.example", "app.example:8080"])
     sc["url_scheme"] = W.choice(["http", "https"])
     sc["sub_seed"] = W.draw(1 << 30)
+    # before the request under test, the trusted proxy itself may have sent a request carrying the same headers
+    sc["trusted_prelude"] = bool(sc["trusted_proxy"]) and W.chance(0.35)
     return sc
 
 
@@ -70,10 +72,18 @@ def one(sc, with_headers):
     if with_headers:
         for kind, val in sc["headers"].items():
             h.append((proxygen.WIRE_NAME[kind], val.encode("latin-1", "replace")))
-    sim.add_client([("send", build_request("GET", "/p", "1.1", h))], cid=0, addr=(sc["peer"], 40123))
+    if sc.get("trusted_prelude"):
+        hp = [("Host", sc["host"]), ("X-Other", "0")]
+        for kind, val in sc["headers"].items():
+            hp.append((proxygen.WIRE_NAME[kind], val.encode("latin-1", "replace")))
+        sim.add_client([("send", build_request("GET", "/prelude", "1.1", hp))], cid=1, addr=(sc["trusted_proxy"], 40999))
+        sim.add_client([("send", build_request("GET", "/p", "1.1", h))], cid=0, addr=(sc["peer"], 40123), start=0.05)
+    else:
+        sim.add_client([("send", build_request("GET", "/p", "1.1", h))], cid=0, addr=(sc["peer"], 40123))
     sim.run()
     s = sim.conns.get(0)
-    env = dict(app.calls[0]["environ"]) if app.calls else None
+    mine = [c for c in app.calls if c["path"] == "/p"]
+    env = dict(mine[0]["environ"]) if mine else None
     status = bytes(s.wire[:12]) if s else b""
     lp = common.log_problems(sim, patterns=("Exception while serving", "uncaptured python exception", "Exception when servicing"))
     return env, status, lp, sim.k.digest(), common.base_stats(sim), sim.k.harness_error
